@@ -1,7 +1,9 @@
 SPECIFICATION Spec
 CONSTANTS
   Ids <- MCIds
-  NSet = {1, 2, 3, 4, 5, 6}
+  NSet = {1, 2, 3, 4, 5}
   MaxN = 7
+  SparseN = 6
+  SparseMaxE = 7
 INVARIANTS NoThrow QueueShape QueuedEdgesTouchExplored LabelsAreShortest AtEnd Terminates
 CHECK_DEADLOCK TRUE
